@@ -246,6 +246,9 @@ where
             cases: share.min(u32::MAX as u64) as u32,
             failure_persistence: None,
             max_shrink_iters: plan.shrink_iters,
+            // shrinking only makes the replay file smaller: bound it in time as well (a failing
+            // case with 65 000 disclosures costs a second per attempt)
+            max_shrink_time: 120_000,
             max_global_rejects: 1 << 20,
             max_local_rejects: 1 << 20,
             verbose: 0,
